@@ -96,11 +96,67 @@ def mutants(props, only=None):
     return 1 if bad else 0
 
 
+def run_seeded(sid, prop, tier='quick'):
+    d = os.path.join(VERIF, 'seeded', sid)
+    tmp = tempfile.mkdtemp(prefix='verif-seed-', dir='/var/tmp')
+    try:
+        shutil.copytree(os.path.join(REPO, 'circuits'), os.path.join(tmp, 'circuits'), ignore=shutil.ignore_patterns('__pycache__'))
+        p = subprocess.run(['patch', '-p1', '-s', '-d', tmp, '-i', os.path.join(d, 'patch.diff')], capture_output=True, text=True)
+        if p.returncode != 0:
+            return -2, [], 'patch does not apply: ' + p.stdout + p.stderr
+        env = dict(os.environ, VERIF_REPO=tmp, VERIF_NO_EVIDENCE='1')
+        p = subprocess.run([PY, MAIN, prop, '--tier', tier], capture_output=True, text=True, env=env, timeout=3000)
+        keys = [l for l in p.stdout.splitlines() if l.startswith('violation ')]
+        return p.returncode, keys, p.stdout[-1500:] + p.stderr[-1500:]
+    finally:
+        shutil.rmtree(tmp, ignore_errors=True)
+
+
+def seeded(props, tier='quick'):
+    """Apply every kept seeded change (seeded/<id>/patch.diff) to a scratch copy and run the check of the property it breaks."""
+    bad = 0
+    base = os.path.join(VERIF, 'seeded')
+    for sid in sorted(os.listdir(base)) if os.path.isdir(base) else []:
+        mp = os.path.join(base, sid, 'meta.json')
+        if not os.path.exists(mp):
+            continue
+        meta = json.load(open(mp))
+        if props and meta['property'] not in props:
+            continue
+        exp = meta.get('expect_' + tier, meta.get('expect', 'caught'))
+        rc, keys, tail = run_seeded(sid, meta['property'], tier)
+        ok = (rc == 1) if exp == 'caught' else (rc == 0)
+        print('seeded %s (%s, %s): exit %d %s %s' % (sid, meta['property'], tier, rc, 'OK(' + exp + ')' if ok else 'UNEXPECTED(want ' + exp + ')', [k[:160] for k in keys[:2]]))
+        if not ok:
+            print('    ' + tail.replace('\n', '\n    ')[-800:])
+            bad += 1
+    return 1 if bad else 0
+
+
+def smoke():
+    """setup_cmd: byte-compile the harness and execute a handful of runs of every claimed property (5-10 s)."""
+    import compileall
+    ok = compileall.compile_dir(os.path.join(VERIF, 'simcore'), quiet=1) and compileall.compile_dir(os.path.join(VERIF, 'props'), quiet=1)
+    man = json.load(open(os.path.join(VERIF, 'MANIFEST.json')))
+    bad = 0 if ok else 1
+    for c in man['checks']:
+        out = _digests(c['property_id'], 3, 0, 0)
+        if 'ERROR' in out or len(out.splitlines()) != 3:
+            print('smoke %s: FAILED\n%s' % (c['property_id'], out[-600:]))
+            bad += 1
+    print('smoke: %d checks, %d failed' % (len(man['checks']), bad))
+    return 1 if bad else 0
+
+
 def main(kind, prop=None):
     props = [prop.upper()] if prop else all_props()
     if kind == 'determinism':
         return determinism(props)
     if kind == 'mutants':
         return mutants(props, os.environ.get('VERIF_MUTANT'))
+    if kind == 'seeded':
+        return seeded([prop.upper()] if prop else None, os.environ.get('VERIF_TIER', 'quick'))
+    if kind == 'smoke':
+        return smoke()
     print('unknown selftest', kind)
     return 2
